@@ -51,8 +51,23 @@ theorem C19_devices_injective (l1 l2 : List Str) (h : renderDevices l1 = renderD
 theorem C19_exit_iff_errors (errorKeys : List Str) : cdiExit errorKeys ≠ 0 ↔ errorKeys ≠ [] := by
   unfold cdiExit; by_cases h : errorKeys = [] <;> simp [h]
 
-theorem C19_validate_exit_iff_schema_fails (ok : Bool) : validateExit ok ≠ 0 ↔ ok = false := by
-  cases ok <;> simp [validateExit]
+theorem C19_validate_exit_iff_schema_fails (oks : List Bool) : validateExit oks ≠ 0 ↔ ∃ ok ∈ oks, ok = false := by
+  unfold validateExit
+  induction oks with
+  | nil => simp
+  | cons a rest ih =>
+    cases a
+    · simp
+    · simpa using ih
+
+/-- the position of an invalid document among the arguments is irrelevant -/
+theorem C19_validate_exit_perm (a b : List Bool) (h : a.Perm b) : validateExit a = validateExit b := by
+  unfold validateExit
+  have : a.all id = b.all id := by
+    apply Bool.eq_iff_iff.mpr
+    simp only [List.all_eq_true]
+    exact ⟨fun ha x hx => ha x (h.mem_iff.mpr hx), fun hb x hx => hb x (h.mem_iff.mp hx)⟩
+  rw [this]
 
 /-! ### Non-vacuity -/
 example : renderDevices [lit "v.com/c=a", lit "v.com/c=b"] =
